@@ -11,6 +11,8 @@ STRS = [b"", b"a", b"hello world", b"\"quoted\\", b"\x00\x01\x08\x0c\n\r\t\x1f\x
         b"\xff\xfe", b"\xc3", b"\xe2\x82", b"\xf0\x9f\x98", b"\xed\xa0\x80", b"\xc0\xaf", b"\xf4\x90\x80\x80", b"a\xffb", b"\xef\xbf\xbd"]
 def f(x): return "%016x" % struct.unpack(">Q", struct.pack(">d", x))[0]
 FLOATS = [0.0, -0.0, 1.0, 1.5, 1e21, 1e20, 1e-7, 1e-6, 123456789.125, float("inf"), float("nan"), 5e-324, 1.7976931348623157e308, 100.0, 0.000001234]
+# both signs of every magnitude around the switch points of the number format (1e-6, 1e21), float32-looking values
+FLOATS += [-x for x in FLOATS if x == x and x != 0.0] + [9.999999999999999e20, -9.999999999999999e20, 1.5e21, -2.5e30, 9.999999999999999e-7, -9.999999999999999e-7, 1e-5, -1e-5, 3.4028234663852886e38, -1e300, float("-inf")]
 
 def gen_val(rng, depth, plain=True):
     r = rng.random()
